@@ -190,9 +190,15 @@ def explore(lib, body):
 
 def run(chk):
     lib = load(chk)
-    chk.technique = ("path enumeration over the comparison skeleton of get_lower_index (each comparison of the query with an axis value "
+    analyse(chk, lib)
+
+
+def analyse(chk, lib, set_text=True):
+    technique = ("path enumeration over the comparison skeleton of get_lower_index (each comparison of the query with an axis value "
                      "is a two-way case split recorded as an order fact) + Floyd-Hoare check of the binary-search loop invariant "
                      "A[lo] <= q < A[hi]; the float guess and the midpoint are arbitrary indices")
+    if set_text:
+        chk.technique = technique
     chk.rule('R11.1', "clamps: the function returns 0 exactly on the path where q <= A[0] was established, and len-2 exactly where additionally q >= A[len-1]; before any arithmetic")
     chk.rule('R11.2', "the guessed index g is returned only under the facts A[g] <= q and q < A[g+1] for the same g, and A[g+1] is read only after A[g] <= q is known")
     chk.rule('R11.3', "binary search: the invariant A[lo] <= q < A[hi] holds on loop entry on every path and is preserved by every path through the loop body (branch polarity)")
@@ -289,7 +295,8 @@ def run(chk):
             chk.ob('R11.5', "%s: %s" % (path, ex), False, getattr(ex, 'where', ''), 'caller-' + path)
     for m, outcome, out in paths[:6]:
         chk.sample({"path": [('%s' % l, d) for l, d in m.trace], "returns": str(out.r) if isinstance(out, Num) else str(out)})
-    chk.explanation = ("Only the comparison skeleton is decided: all %d paths of get_lower_index were enumerated with each query/axis comparison as a "
+    if set_text:
+      chk.explanation = ("Only the comparison skeleton is decided: all %d paths of get_lower_index were enumerated with each query/axis comparison as a "
                        "case split; returns are the two clamps (under their establishing facts), an accepted guess (bracket check for the same index, "
                        "guarded read), or the lower bound after the binary search, whose invariant A[lo] <= q < A[hi] is established on every "
                        "entry path and preserved by both body paths. Termination, midpoint arithmetic and the validity of the float guess are "
